@@ -12,8 +12,10 @@ Driver of C11. One case:
 With `steps` the SAME query object is evaluated once per data state (before the first step and after every step); every
 result field then is the ` | `-separated list of the per-state results (`Match.runSeq`).
 
-prints `model=` (desugar + evaluator with today's quirks), `spec=` (`specRows`), `trig=` (finding ids),
-`model_fixed=` (all quirks off). Rows are printed as a sorted, de-duplicated set.
+prints `model=` (desugar + evaluator for the code as it is now: `Quirks.now`, i.e. F-C11-3..6 repaired, F-C11-1/2 open),
+`spec=` (`specRows`), `trig=` (ids of the OPEN findings whose trigger fires), `model_fixed=` (all quirks off),
+`before_fix_model=` (`Quirks.today`: the behaviour before the fix commits; deliberately not a `model*` field, so it
+excuses nothing), `shapes=` (the six trigger shapes the theorems exclude). Rows are printed as a sorted, de-duplicated set.
 -/
 namespace KrroodVerif.Drive.C11
 open KrroodVerif KrroodVerif.Eql KrroodVerif.Match KrroodVerif.Drive.EqlParse
@@ -126,7 +128,7 @@ def flattenAnd : Cond → List Cond
 
 /-- `ok` / `differs` / `n/a` -/
 def eqlCheck (c : Case) : String :=
-  match desugar Quirks.today c.s c.w.subclass c.p with
+  match desugar Quirks.now c.s c.w.subclass c.p with
   | some q =>
     if q.sel != [MTerm.root] then "n/a" else
     let conds := match q.cond with | some e => flattenAnd e | none => []
@@ -143,17 +145,15 @@ def eqlCheck (c : Case) : String :=
       match Eql.evalQuery w' { sel := [.var 0], cond := cond } with
       | .error _ => "n/a"
       | .ok rows =>
-        if showRun (some rows) == showRun (some (Match.evalQuery c.w Quirks.today c.dom q)) then "ok" else "differs"
+        if showRun (some rows) == showRun (some (Match.evalQuery c.w Quirks.now c.dom q)) then "ok" else "differs"
   | none => "n/a"
 
-/-- today's quirks with the quirk of each listed finding switched off (that finding repaired) -/
+/-- the code as it is now (`Quirks.now`) with the quirk of each listed OPEN finding switched off (that finding
+repaired as well) -/
 def quirksWithout (ids : List String) : Quirks :=
-  { existsByValue := !ids.contains "F-C11-1"
-    selIndependent := !ids.contains "F-C11-2"
-    relOnlyIterable := !ids.contains "F-C11-3"
-    declaredOwner := !ids.contains "F-C11-4"
-    lazyFlatten := !ids.contains "F-C11-5"
-    falsyValueIsNoType := !ids.contains "F-C11-6" }
+  { Quirks.now with
+    existsByValue := !ids.contains "F-C11-1"
+    selIndependent := !ids.contains "F-C11-2" }
 
 def sublists {α} : List α → List (List α)
   | [] => [[]]
@@ -168,14 +168,18 @@ def run (s : Sexp) : String :=
     let ws := worlds c.w c.steps
     let seq := fun (Q : Quirks) => joinStates ((runSeq Q c.s c.dom c.p c.w c.steps).map showRun)
     let sp := joinStates (ws.map fun w => showRun (some (specRows w c.dom c.p)))
-    let trig := triggers c.w c.s c.p
-    -- one alternative per proper non-empty subset of the triggered findings being repaired
+    -- only the findings that are still open excuse a difference from the specification
+    let trig := openTriggers c.w c.s c.p
+    -- the six shapes outside the proved fragment (incl. those of the repaired findings F-C11-3..6)
+    let shapes := triggers c.w c.s c.p
+    -- one alternative per proper non-empty subset of the triggered open findings being repaired
     let alts := (sublists trig).filter fun l => !l.isEmpty && l.length < trig.length
     let altFields := alts.map fun l => s!"\tmodel_without_{"_".intercalate l}={seq (quirksWithout l)}"
     let eqls := ws.map fun w => eqlCheck { c with w := w }
     let eql := if eqls.contains "differs" then "differs" else if eqls.all (· == "ok") then "ok" else "n/a"
-    s!"model={seq Quirks.today}\tspec={sp}\ttrig={",".intercalate trig}\tmodel_fixed={seq Quirks.fixed}" ++
+    s!"model={seq Quirks.now}\tspec={sp}\ttrig={",".intercalate trig}\tmodel_fixed={seq Quirks.fixed}" ++
       s!"\twf={c.p.wf c.s c.w.subclass}\tconf={ws.all fun w => conformsB w c.s}\tnsel={c.p.nSel}\teql={eql}" ++
-      s!"\tstates={ws.length}" ++ String.join altFields
+      s!"\tstates={ws.length}\tshapes={",".intercalate shapes}\tbefore_fix_model={seq Quirks.today}" ++
+      String.join altFields
 
 end KrroodVerif.Drive.C11
